@@ -38,6 +38,10 @@ func pricingMatches(p *types.Pricing, hp *HPricing) string {
 	if len(p.Price) > 1 {
 		return "stored price has several coins"
 	}
+	if len(p.Price) == 1 && p.Price[0].Denom != hp.Denom {
+		// price terms are kept in the min unit of the pricing token, whatever the amount (also zero)
+		return fmt.Sprintf("stored price %s is not denominated in %s, the min unit of the published price", p.Price, hp.Denom)
+	}
 	if len(p.PromotionsByTime) != len(hp.ByTime) || len(p.PromotionsByVolume) != len(hp.ByVol) {
 		return "number of promotions differs"
 	}
